@@ -26,7 +26,7 @@ from cryptography.hazmat.primitives import hashes, serialization
 from cryptography.hazmat.primitives.asymmetric import rsa, padding
 
 from paramiko.message import Message
-from paramiko.pkey import PKey
+from paramiko.pkey import PKey, _signature_fields
 from paramiko.ssh_exception import SSHException
 
 
@@ -136,11 +136,11 @@ class RSAKey(PKey):
         return m
 
     def verify_ssh_sig(self, data, msg):
-        try:
-            sig_algorithm = msg.get_text()
-        except SSHException:
-            # algorithm name is not valid UTF-8
+        fields = _signature_fields(msg)
+        if fields is None:
+            # truncated / over-long blob, or algorithm name not valid UTF-8
             return False
+        sig_algorithm, sign = fields
         if sig_algorithm not in self.HASHES:
             return False
         key = self.key
@@ -149,7 +149,6 @@ class RSAKey(PKey):
 
         # NOTE: pad received signature with leading zeros, key.verify()
         # expects a signature of key size (e.g. PuTTY doesn't pad)
-        sign = msg.get_binary()
         diff = key.key_size - len(sign) * 8
         if diff > 0:
             sign = b"\x00" * ((diff + 7) // 8) + sign
